@@ -5,6 +5,21 @@ COMMON_NOTE = ("Trusted base: Lean 4.33 kernel; axioms ⊆ {propext, Classical.c
                "generated tables (harness/gen_tables.py). ")
 
 CLAIMED = {
+    "C04": {
+        "text": "Theorems (Lean; the quantifier is finite by nature, so they are proved over the WHOLE table backend × call style × phase of the "
+                "fault × kind × has-own-files by kernel evaluation): referenced_present — the transaction's files are never deleted once the "
+                "pointer names the version referencing them; outcome_sound; storage_error_is_pre; ambiguous_keeps_files; "
+                "post_commit_faults_are_silent; referenced_present_refuted — machine-checked witness of the defect found (interrupt after the "
+                "flip in a with-block), replayed on the library on all three backends, then repaired. Tie/oracle: EVERY single fault (exception "
+                "before effect, exception after effect on object storage, KeyboardInterrupt; SystemExit in thorough) at EVERY storage and lock "
+                "call of append / delete-files / expire / delete-snapshot commits on local, CAS-S3 and non-CAS S3, context-manager and explicit "
+                "style; after each run an independent re-read of every retained snapshot, pre/post classification, fate of the transaction's "
+                "files, follow-up append; outcome triple compared with cf.outcome.",
+        "design_ref": "§6 C04",
+        "note": "Faults are injected at storage/lock call boundaries (an interrupt between two bytecodes of pure bookkeeping is equivalent to one "
+                "at the next boundary); double faults are not enumerated.",
+        "technique": "Lean 4 decision-table theorems (whole finite table) + exhaustive single-fault enumeration on the real library",
+    },
     "C02": {
         "text": "Theorems (Lean): read_is_snapshot / api_is_snapshot — for every timeline of committed versions and every pair of instants inside "
                 "a read's interval, every read API returns (a function of) the rows of exactly ONE version that was current inside the interval "
